@@ -136,7 +136,7 @@ def shortmsg_theorems(ctx):
                 ["Inv"], tag="MC_ShortMsg")
 
 
-def _corrupt_cell(lo, hi, valid_len=81):
+def _corrupt_cell(lo, hi, valid_len=85):
     def f(rows, rng):
         cand = [i for i, r in enumerate(rows) if len(r) >= valid_len]
         if not cand:
@@ -151,7 +151,7 @@ def _corrupt_cell(lo, hi, valid_len=81):
 def c01(ctx):
     shortmsg_theorems(ctx)
     d, f, n = run_table(ctx, "short")
-    table_canary(ctx, d, "short", _corrupt_cell(72, 78))          # structured->raw bytes
+    table_canary(ctx, d, "short", _corrupt_cell(76, 82))          # structured->raw bytes
     shutil.rmtree(d, ignore_errors=True)
     d2, f2, n2 = run_table(ctx, "structured")
     shutil.rmtree(d2, ignore_errors=True)
@@ -195,11 +195,11 @@ def c03(ctx):
 
 
 def _set_flag(rows, rng):
-    cand = [i for i, r in enumerate(rows) if len(r) >= 81]
+    cand = [i for i, r in enumerate(rows) if len(r) >= 85]
     if not cand:
         return None
     i = rng.choice(cand)
-    rows[i][60 + rng.randrange(12)] = 0
+    rows[i][60 + rng.randrange(16)] = 0
     return i
 
 
@@ -237,6 +237,10 @@ def c04(ctx):
     for t in ("short", "structured", "types", "factory", "pnmsg"):
         d, f, n = run_table(ctx, t, tier="quick", per=16384)
         shutil.rmtree(d, ignore_errors=True)
+    # the configuration axis for message fields and data bytes: the same tables from the build WITHOUT std
+    for t in ("short", "factory", "pnmsg"):
+        d, f, n = run_table(ctx, t, config="nostd", tier="quick", per=16384)
+        shutil.rmtree(d, ignore_errors=True)
     rows = gen.random_plain(ctx.rng, "cc14", ctx.q(8000, 60000)) + gen.random_plain(ctx.rng, "pn", ctx.q(8000, 60000), first_id=2) \
         + gen.random_poll(ctx.rng, ctx.q(8000, 60000), first_id=3) + gen.roundtrip_cc14(ctx.rng, ctx.q(500, 5000), first_id=4) \
         + gen.roundtrip_pn(ctx.rng, ctx.q(500, 5000), first_id=5)
@@ -247,8 +251,9 @@ def c04(ctx):
                      "`new` for every value of the representation type; parsing of all strings over {0-9,+,-,space,a} up to "
                      "length 3 (thorough: 4) plus boundary / leading-zero / non-ASCII numerals; MIN/MAX/Default - produced by "
                      "TWO builds of the harness (default features; default-features = false) and judged by TLC against "
-                     "InRange / TryOk / ParseOk; plus the range conjunct on accessor vectors of short messages and on every "
-                     "report of the scanners and encoders in random traces.  distinct_nontrivial = distinct rows whose call succeeded, counted by the harness.")
+                     "InRange / TryOk / ParseOk; plus the range conjunct on the tables of short messages, structured values, "
+                     "constants, factory constructors and (N)RPN encodings (the last three kinds also from the build without std) "
+                     "and on every report of the scanners and encoders in random traces.  distinct_nontrivial = distinct rows whose call succeeded, counted by the harness.")
     ctx.events = events
 
 
